@@ -6,5 +6,5 @@ command -v verus >/dev/null || { echo "verus not on PATH"; exit 1; }
 python3 -c "import json" 
 mkdir -p build evidence replays
 # pre-build the bounded-oracle / witness crate (used on violations, undecided runs and in the thorough tier)
-( cd replay && CARGO_NET_OFFLINE=true cargo build --offline --release --bin oracle >/dev/null 2>&1 ) || echo "warning: replay crate did not build (bounded fallback unavailable)"
+( cd replay && CARGO_NET_OFFLINE=true cargo build --offline --release --bin oracle --bin adiff >/dev/null 2>&1 ) || echo "warning: replay crate did not build (bounded fallback unavailable)"
 echo "setup ok"
